@@ -21,6 +21,11 @@ Definition sx_simple (r : simple str) : sx := L [sx_str (fst r); sx_opt sx_spec 
 Definition sx_res {T} (f : T -> sx) (r : res T) : sx :=
   match r with Ok x => L [A 0; f x] | Err => L [A 1] end.
 
+(* variant of simplify_specifiers on the wire: bit 0 = fixed (sort key compares versions, >=v,<=v,!=v raises),
+   bit 1 = eqv (== specifiers compared by version) *)
+Definition un_fixed (x : sx) : bool := N.odd (un_N x).
+Definition un_eqv (x : sx) : bool := 2 <=? un_N x.
+
 (* frags on the wire: [0 s] str, [1 s] literal, [2 [] suffix] absolute path, [2 [root] suffix] rooted path *)
 Definition un_frag (x : sx) : frag :=
   match un_N (nth_sx 0 x) with
@@ -47,15 +52,15 @@ Definition table : list (string * (sx -> sx)) := [
   ("ver.leb", fun a => sx_bool (sv_leb (un_str (nth_sx 0 a)) (un_str (nth_sx 1 a))));
   ("ver.sat", fun a => sx_bool (sat_str (un_str (nth_sx 0 a)) (un_specs (nth_sx 1 a))));
   ("ver.simplify", fun a =>
-      sx_res (sx_list sx_spec) (simplify_str (un_bool (nth_sx 0 a)) (un_specs (nth_sx 1 a))));
+      sx_res (sx_list sx_spec) (simplify_str (un_fixed (nth_sx 0 a)) (un_eqv (nth_sx 0 a)) (un_specs (nth_sx 1 a))));
   ("req.split", fun a =>
       sx_res (sx_list sx_simple)
-        (req_split str str_eqb sv_leb str_leb (un_bool (nth_sx 0 a)) (un_bool (nth_sx 1 a)) (un_req (nth_sx 2 a))));
+        (req_split str str_eqb sv_leb str_leb (un_fixed (nth_sx 0 a)) (un_eqv (nth_sx 0 a)) (un_bool (nth_sx 1 a)) (un_req (nth_sx 2 a))));
   ("req.finalize_sets", fun a =>
       sx_pair (sx_list sx_req) (sx_list sx_req)
         (finalize_sets str str_eqb (un_reqs (nth_sx 0 a)) (un_reqs (nth_sx 1 a)) (un_reqs (nth_sx 2 a))));
   ("req.finalize", fun a =>
       sx_res (fun t => L [sx_list sx_simple (fst (fst t)); sx_list sx_simple (snd (fst t)); sx_list sx_simple (snd t)])
-        (finalize_reqs str str_eqb sv_leb str_leb (un_bool (nth_sx 0 a))
+        (finalize_reqs str str_eqb sv_leb str_leb (un_fixed (nth_sx 0 a)) (un_eqv (nth_sx 0 a))
            (un_reqs (nth_sx 1 a)) (un_reqs (nth_sx 2 a)) (un_reqs (nth_sx 3 a)) (un_reqs (nth_sx 4 a))))
 ]%string.
